@@ -18,6 +18,8 @@ import copy
 from .pyast import Unrecognised, const, cstr, find_class, find_def, is_logger_call, module_assign, parse, unparse
 
 SER = "simple_parsing/helpers/serialization/serializable.py"
+DEC = "simple_parsing/helpers/serialization/decoding.py"
+ENC = "simple_parsing/helpers/serialization/encoding.py"
 
 
 class _Clean(ast.NodeTransformer):
@@ -93,7 +95,7 @@ FROM_DICT_SKELETON = '''def from_dict(cls: type[DataclassT], d: dict[str, Any], 
     try:
         instance = cls(**init_args)
     except TypeError as e:
-        raise RuntimeError(f"Couldn't instantiate class {cls} using init args {init_args.keys()}: {e}")
+        raise __CONSTRUCT_ERROR__(f"Couldn't instantiate class {cls} using init args {init_args.keys()}: {e}")
     for name, value in non_init_args.items():
         setattr(instance, name, value)
     return instance'''
@@ -298,7 +300,17 @@ def _from_dict_facts(fn):
                 # the argument is not passed: from_dict re-derives it from the chosen class
                 facts["child_drop"] = "None"
                 ret.keywords = [ast.keyword(arg="drop_extra_fields", value=hole("__CHILD_DROP__"))]
-    for k in ("rule", "absent", "skey", "pick", "cmp", "child_drop", "cset", "rset"):
+        # instance = cls(**init_args)  except TypeError: raise <class>(..)
+        if isinstance(node, ast.Try) and len(node.body) == 1 and unparse(node.body[0]) == "instance = cls(**init_args)":
+            if "cerr" in facts or len(node.handlers) != 1 or unparse(node.handlers[0].type) != "TypeError":
+                raise Unrecognised("from_dict: handlers around cls(**init_args)")
+            hb = node.handlers[0].body
+            if not (len(hb) == 1 and isinstance(hb[0], ast.Raise) and isinstance(hb[0].exc, ast.Call)
+                    and isinstance(hb[0].exc.func, ast.Name) and hb[0].cause is None):
+                raise Unrecognised("from_dict: what the TypeError handler raises")
+            facts["cerr"] = hb[0].exc.func.id
+            hb[0].exc.func = hole("__CONSTRUCT_ERROR__")
+    for k in ("rule", "absent", "skey", "pick", "cmp", "child_drop", "cset", "rset", "cerr"):
         if k not in facts:
             raise Unrecognised(f"from_dict: could not locate the construct for `{k}`")
     got = unparse(fn)
@@ -313,6 +325,230 @@ def _from_dict_facts(fn):
 
 def cbool(b):
     return "true" if b else "false"
+
+
+def copt_bool(v):
+    return "None" if v is None else f"(Some {cbool(v)})"
+
+
+DECODE_FIELD_SKELETON = '''def decode_field(field: Field, raw_value: Any, containing_dataclass: type | None=None, drop_extra_fields: bool | None=None) -> Any:
+    name = field.name
+    field_type = field.type
+    custom_decoding_fn = field.metadata.get('decoding_fn')
+    if custom_decoding_fn is not None:
+        return custom_decoding_fn(raw_value)
+    if isinstance(field_type, str) and containing_dataclass:
+        field_type = evaluate_string_annotation(field_type, containing_dataclass)
+    decoding_function = get_decoding_fn(field_type)
+    _kwargs = dict(category=UnsafeCastingWarning) if sys.version_info >= (3, 11) else {}
+    with warnings.catch_warnings(record=True, **_kwargs) as warning_messages:
+        __DECODE_CALL__
+    for warning_message in warning_messages.copy():
+        if not isinstance(warning_message.message, UnsafeCastingWarning):
+            warning_messages.remove(warning_message)
+    if warning_messages:
+        pass
+    return decoded_value'''
+
+# how decode_field calls the decoder -> when drop_extra_fields reaches it
+DECODE_CALL_SHAPES = {
+    ("if is_dataclass_type(field_type) and drop_extra_fields is not None:\n"
+     "    decoded_value = decoding_function(raw_value, drop_extra_fields=drop_extra_fields)\n"
+     "else:\n"
+     "    decoded_value = decoding_function(raw_value)"): "FwdDataclassNotNone",
+    "decoded_value = decoding_function(raw_value)": "FwdNever",
+}
+
+DECODE_LIST_TEXT = '''def decode_list(t: type[T]) -> Callable[[list[Any]], list[T]]:
+    decode_item = get_decoding_fn(t)
+
+    def _decode_list(val: list[Any]) -> list[T]:
+        return [decode_item(v__ITEM_FLAG__) for v in val]
+    return _decode_list'''
+
+DECODE_DICT_TEXT = '''def decode_dict(K_: type[K], V_: type[V]) -> Callable[[list[tuple[Any, Any]]], dict[K, V]]:
+    decode_k = get_decoding_fn(K_)
+    decode_v = get_decoding_fn(V_)
+
+    def _decode_dict(val: dict[Any, Any] | list[tuple[Any, Any]]) -> dict[K, V]:
+        result: dict[K, V] = {}
+        if isinstance(val, list):
+            result = OrderedDict()
+            items = val
+        elif isinstance(val, OrderedDict):
+            result = OrderedDict()
+            items = val.items()
+        else:
+            items = val.items()
+        for k, v in items:
+            k_ = decode_k(k)
+            v_ = decode_v(v__ITEM_FLAG__)
+            result[k_] = v_
+        return result
+    return _decode_dict'''
+
+ENCODE_TEXT = '''@singledispatch
+def encode(obj: Any) -> Any:
+    try:
+        if is_dataclass(obj):
+            d: dict[str, Any] = dict()
+            for field in fields(obj):
+                value = getattr(obj, field.name)
+                try:
+                    d[field.name] = encode(value)
+                except TypeError as e:
+                    raise e
+            return d
+        else:
+            return copy.deepcopy(obj)
+    except Exception as e:
+        raise e'''
+
+ENCODE_LIST_TEXT = '''@encode.register(list)
+@encode.register(tuple)
+@encode.register(set)
+def encode_list(obj: Union[list[Any], set[Any], tuple[Any, ...]]) -> list[Any]:
+    return list(map(encode, obj))'''
+
+ENCODE_DICT_TEXT = '''@encode.register(Mapping)
+def encode_dict(obj: Mapping) -> dict[Any, Any]:
+    constructor = type(obj)
+    result = constructor()
+    for k, v in obj.items():
+        k_ = encode(k)
+        v_ = encode(v)
+        if isinstance(k_, Hashable):
+            result[k_] = v_
+        else:
+            if isinstance(result, dict):
+                result = list(result.items())
+            result.append((k_, v_))
+    return result
+    return type(obj)(((encode(k), encode(v)) for k, v in obj.items()))'''
+
+DECODE_INT_TEXT = '''@decoding_fn_for_type(int)
+def _decode_int(v: str) -> int:
+    int_v = int(v)
+    if isinstance(v, bool):
+        pass
+    elif not isinstance(v, int) and int_v != float(v):
+        pass
+    return int_v'''
+
+DISPATCH_TESTS = {"t in _decoding_fns": "KRegistered", "is_dataclass_type(t)": "KDataclass", "t is Any": "KAny",
+                  "is_dict(t)": "KDict", "is_set(t)": "KSet", "is_tuple(t)": "KTuple", "is_list(t)": "KList",
+                  "is_union(t)": "KUnion", "is_enum(t)": "KEnum", "is_typevar(t)": "KTypeVar", "is_literal(t)": "KLiteral"}
+# last statement of the branches the model relies on
+DISPATCH_RETURNS = {"KRegistered": "return _decoding_fns[t]", "KDict": "return decode_dict(*args)",
+                    "KList": "return decode_list(args[0])"}
+
+
+def _item_flag(fn, callee, expected):
+    """decode_list / decode_dict: the item decoder is called as callee(v) or callee(v, drop_extra_fields=<bool>)."""
+    fn = _cleaned(fn)
+    found = []
+    for node in ast.walk(fn):
+        if isinstance(node, ast.Call) and isinstance(node.func, ast.Name) and node.func.id == callee:
+            if [unparse(a) for a in node.args] != ["v"]:
+                raise Unrecognised(f"{fn.name}: arguments of {callee}: {unparse(node)[:80]}")
+            if not node.keywords:
+                found.append(None)
+            elif [k.arg for k in node.keywords] == ["drop_extra_fields"]:
+                found.append(const(node.keywords[0].value, bool))
+                node.keywords = []
+            else:
+                raise Unrecognised(f"{fn.name}: keywords of {callee}: {unparse(node)[:80]}")
+    if len(found) != 1:
+        raise Unrecognised(f"{fn.name}: {callee} is called {len(found)} times")
+    got = unparse(fn)
+    want = expected.replace("__ITEM_FLAG__", "")
+    if got != want:
+        for i, (a, b) in enumerate(zip(got.splitlines(), want.splitlines())):
+            if a != b:
+                raise Unrecognised(f"{fn.name}: line {i + 1} is `{a.strip()[:100]}`, the model was written against `{b.strip()[:100]}`")
+        raise Unrecognised(f"{fn.name}: number of cleaned lines")
+    return found[0]
+
+
+def _decode_field_fwd(fn):
+    fn = _cleaned(fn)
+    withs = [n for n in fn.body if isinstance(n, ast.With)]
+    if len(withs) != 1:
+        raise Unrecognised("decode_field: the warnings.catch_warnings block")
+    shape = "\n".join(unparse(st) for st in withs[0].body)
+    if shape not in DECODE_CALL_SHAPES:
+        raise Unrecognised(f"decode_field: how the decoder is called: {shape[:200]}")
+    withs[0].body = [ast.Expr(value=ast.Name(id="__DECODE_CALL__", ctx=ast.Load()))]
+    got = unparse(fn)
+    if got != DECODE_FIELD_SKELETON:
+        for i, (a, b) in enumerate(zip(got.splitlines(), DECODE_FIELD_SKELETON.splitlines())):
+            if a != b:
+                raise Unrecognised(f"decode_field: line {i + 1} is `{a.strip()[:100]}`, the model was written against `{b.strip()[:100]}`")
+        raise Unrecognised("decode_field: number of cleaned lines")
+    return DECODE_CALL_SHAPES[shape]
+
+
+def _dispatch(fn):
+    """get_decoding_fn: the tests applied to the resolved type t, in order; the dataclass branch's partial(from_dict, t, ..)."""
+    body = _cleaned(fn).body
+    start = None
+    for i, st in enumerate(body):
+        if isinstance(st, ast.If) and unparse(st.test) in DISPATCH_TESTS:
+            start = i
+            break
+    if start is None:
+        raise Unrecognised("get_decoding_fn: dispatch chain not found")
+    kinds, preset = [], "absent"
+    for st in body[start:-1]:
+        if not (isinstance(st, ast.If) and not st.orelse and unparse(st.test) in DISPATCH_TESTS):
+            raise Unrecognised(f"get_decoding_fn: dispatch step `{unparse(st)[:80]}`")
+        k = DISPATCH_TESTS[unparse(st.test)]
+        if k in kinds:
+            raise Unrecognised(f"get_decoding_fn: {k} tested twice")
+        kinds.append(k)
+        last = unparse(st.body[-1])
+        if k in DISPATCH_RETURNS and last != DISPATCH_RETURNS[k]:
+            raise Unrecognised(f"get_decoding_fn: the {k} branch ends with `{last[:80]}`")
+        if k == "KDataclass":
+            r = st.body[-1]
+            if not (len(st.body) == 1 and isinstance(r, ast.Return) and isinstance(r.value, ast.Call) and unparse(r.value.func) == "partial"
+                    and [unparse(a) for a in r.value.args] == ["from_dict", "t"]):
+                raise Unrecognised(f"get_decoding_fn: the dataclass branch is `{last[:80]}`")
+            if not r.value.keywords:
+                preset = None
+            elif [kw.arg for kw in r.value.keywords] == ["drop_extra_fields"]:
+                v = r.value.keywords[0].value
+                preset = None if (isinstance(v, ast.Constant) and v.value is None) else const(v, bool)
+            else:
+                raise Unrecognised(f"get_decoding_fn: the dataclass branch is `{last[:80]}`")
+    if unparse(body[-1]) != "return try_constructor(t)":
+        raise Unrecognised("get_decoding_fn: fallback")
+    if preset == "absent":
+        raise Unrecognised("get_decoding_fn: no dataclass branch")
+    return kinds, preset
+
+
+def _locate_error(fn):
+    """_locate: every failure to resolve a well-formed dotted name raises the same class."""
+    fn = _cleaned(fn)
+    names = set()
+    guards = 0
+    for node in ast.walk(fn):
+        if isinstance(node, ast.If) and unparse(node.test) in ("path == ''", "not len(part)"):
+            guards += 1
+            for st in node.body:
+                st._c14_guard = True
+    for node in ast.walk(fn):
+        if isinstance(node, ast.Raise) and not getattr(node, "_c14_guard", False):
+            exc = node.exc.func if isinstance(node.exc, ast.Call) else node.exc
+            if not isinstance(exc, ast.Name):
+                raise Unrecognised("_locate: raise of a non-name")
+            names.add(exc.id)
+    if guards != 2 or len(names) != 1:
+        raise Unrecognised(f"_locate: guards={guards}, classes raised on an unresolvable name: {sorted(names)}")
+    if unparse(fn.body[-1]) != "return obj":
+        raise Unrecognised("_locate: result")
+    return names.pop()
 
 
 def emit(repo: str) -> str:
@@ -336,7 +572,32 @@ def emit(repo: str) -> str:
     if td != "return to_dict(self, dict_factory=dict_factory, recurse=recurse, save_dc_types=save_dc_types)":
         raise Unrecognised(f"SerializableMixin.to_dict body: {td[:100]}")
     _same_text("utils.all_subclasses", find_def(utils, "all_subclasses"), ALL_SUBCLASSES_TEXT)
-    args = "DC_TYPE_KEY SORT_KEY_GEN SUPERSET_CMP_GEN CAND_FIELDS_GEN REQUIRED_GEN PICK_GEN DROP_RULE_GEN DIS_ABSENT_GEN CHILD_DROP_GEN"
+    dec = parse(repo, DEC)
+    enc = parse(repo, ENC)
+    fwd = _decode_field_fwd(find_def(dec, "decode_field"))
+    list_flag = _item_flag(find_def(dec, "decode_list"), "decode_item", DECODE_LIST_TEXT)
+    dict_flag = _item_flag(find_def(dec, "decode_dict"), "decode_v", DECODE_DICT_TEXT)
+    kinds, preset = _dispatch(find_def(dec, "get_decoding_fn"))
+    _same_text("decoding._decode_int", find_def(dec, "_decode_int"), DECODE_INT_TEXT)
+    _same_text("encoding.encode", find_def(enc, "encode"), ENCODE_TEXT)
+    _same_text("encoding.encode_list", find_def(enc, "encode_list"), ENCODE_LIST_TEXT)
+    _same_text("encoding.encode_dict", find_def(enc, "encode_dict"), ENCODE_DICT_TEXT)
+    # a dataclass met inside a container is encoded by the registered cls.to_dict (or by encode's own dataclass branch, which
+    # writes no type entry) with DEFAULT arguments: the default of save_dc_types is the flag it is encoded with
+    from .pyast import kw_defaults
+    d1 = kw_defaults(find_def(ser, "to_dict", cls="SerializableMixin")).get("save_dc_types")
+    d2 = kw_defaults(find_def(ser, "to_dict")).get("save_dc_types")
+    if d1 is None or d2 is None or const(d1, bool) != const(d2, bool):
+        raise Unrecognised("to_dict: default of save_dc_types (method / function)")
+    item_save = const(d1, bool)
+    if item_save:
+        raise Unrecognised("to_dict: save_dc_types defaults to True, but encode()'s own dataclass branch writes no type entry")
+    d3 = kw_defaults(find_def(ser, "from_dict", cls="SerializableMixin")).get("drop_extra_fields")
+    if d3 is None or not (isinstance(d3, ast.Constant) and d3.value is None):
+        raise Unrecognised("SerializableMixin.from_dict: default of drop_extra_fields")
+    locate_err = _locate_error(find_def(ser, "_locate"))
+    args = "DC_TYPE_KEY SORT_KEY_GEN SUPERSET_CMP_GEN CAND_FIELDS_GEN REQUIRED_GEN PICK_GEN DROP_RULE_GEN DIS_ABSENT_GEN CHILD_DROP_GEN " \
+           "FIELD_FORWARD_GEN LIST_ITEM_DROP_GEN DICT_VALUE_DROP_GEN DC_DECODER_PRESET_GEN CONSTRUCT_ERROR_GEN LOCATE_ERROR_GEN"
     return (
         "From SPV Require Import Base.Str Model.Subclass.\nOpen Scope string_scope.\n"
         f"Definition DC_TYPE_KEY : string := {cstr(key)}.\n"
@@ -348,9 +609,17 @@ def emit(repo: str) -> str:
         f"Definition DROP_RULE_GEN : droprule := {facts['rule']}.\n"
         f"Definition DIS_ABSENT_GEN : bool := {cbool(facts['absent'])}.\n"
         f"Definition CHILD_DROP_GEN : option bool := {facts['child_drop']}.\n"
+        f"Definition FIELD_FORWARD_GEN : fwdrule := {fwd}.\n"
+        f"Definition LIST_ITEM_DROP_GEN : option bool := {copt_bool(list_flag)}.\n"
+        f"Definition DICT_VALUE_DROP_GEN : option bool := {copt_bool(dict_flag)}.\n"
+        f"Definition DC_DECODER_PRESET_GEN : option bool := {copt_bool(preset)}.\n"
+        f"Definition DECODE_DISPATCH_GEN : list dkind := [{'; '.join(kinds)}].\n"
+        f"Definition ITEM_SAVE_TYPES_GEN : bool := {cbool(item_save)}.\n"
+        f"Definition CONSTRUCT_ERROR_GEN : string := {cstr(facts['cerr'])}.\n"
+        f"Definition LOCATE_ERROR_GEN : string := {cstr(locate_err)}.\n"
         "(* the model instantiated with the regenerated facts *)\n"
         f"Definition from_ser_gen := from_ser {args}.\n"
-        "Definition to_ser_gen := to_ser DC_TYPE_KEY.\n"
+        "Definition to_ser_gen := to_ser DC_TYPE_KEY ITEM_SAVE_TYPES_GEN.\n"
         "Definition choose_gen := choose SORT_KEY_GEN SUPERSET_CMP_GEN CAND_FIELDS_GEN PICK_GEN.\n"
         "Definition dis_of_gen := dis_of DIS_ABSENT_GEN.\n"
         "Definition wf_hier_gen := wf_hier DC_TYPE_KEY.\n"
